@@ -301,8 +301,12 @@ func (c18) Execute(h *core.History) *core.Outcome {
 	ref, code, _, out := c18Child(d0, hf, "ref", -1)
 	st.Children++
 	if ref == nil {
-		st.Discarded = true
-		st.Panic(fmt.Sprintf("reference worker failed (exit %d): %s", code, trunc(out, 300)))
+		if code == 2 && strings.Contains(out, "bad history") {
+			st.Discarded = true
+			st.Panic("reference worker: " + trunc(out, 200))
+		} else {
+			fail("unfaulted-save-fails", "worker-died", fmt.Sprintf("the worker doing two plain auto-saves (no fault injected) died: exit %d: %s", code, trunc(tailStr(out, 400), 400)))
+		}
 		st.Shape = "ref-failed"
 		return o
 	}
